@@ -117,13 +117,13 @@ def gen_roll(tier, rng):
             shifts = sorted(set(rng.sample(list(shifts), 24)) | {-2 * N, -N - 1, -N, -1, 0, 1, N, N + 1, 2 * N})
         for sh in shifts:
             yield Case('roll shape=%s shift=%d axis=None' % (fmt(s), sh), H_A, oracle=ans(np.roll(a, sh)),
-                       dom=abs(sh) <= N, nontrivial=sh % N != 0, tags=['roll', 'roll.none', 'shift>n' if abs(sh) > N else 'shift<=n'])
+                       nontrivial=sh % N != 0, tags=['roll', 'roll.none', 'shift>n' if abs(sh) > N else 'shift<=n'])
         # single axis: every axis incl. negative, shifts in [-2n, 2n]
         for ax in axes_of(dim, with_none=False):
             n = s[ax]
             for sh in range(-2 * n, 2 * n + 1):
                 yield Case('roll shape=%s shift=%d axis=%d' % (fmt(s), sh, ax), H_A, oracle=ans(np.roll(a, sh, axis=ax)),
-                           dom=abs(sh) <= n, nontrivial=sh % n != 0, tags=['roll', 'roll.single', axtag(ax), 'shift>n' if abs(sh) > n else 'shift<=n'])
+                           nontrivial=sh % n != 0, tags=['roll', 'roll.single', axtag(ax), 'shift>n' if abs(sh) > n else 'shift<=n'])
         # several axes: distinct (every ordered pair / triple, mixed signs), scalar and per-axis shifts; a few repeated axes
         if dim >= 2:
             combos = [c for k in (2, 3) if k <= dim for c in itertools.permutations(range(dim), k)]
@@ -131,9 +131,9 @@ def gen_roll(tier, rng):
                 for t in range(4):
                     axs = [x - dim if rng.random() < 0.5 else x for x in axes]
                     shs = [rng.randint(-2 * s[x], 2 * s[x]) if t == 3 else rng.randint(-s[x], s[x]) for x in axes]
-                    dom = all(abs(h) <= s[x] for h, x in zip(shs, axes))
+                    small = all(abs(h) <= s[x] for h, x in zip(shs, axes))
                     yield Case('roll shape=%s slist=%s alist=%s' % (fmt(s), fmt(shs), fmt(axs)), H_A, oracle=ans(np.roll(a, shs, axis=tuple(axs))),
-                               dom=dom, tags=['roll', 'roll.multi', 'shift<=n' if dom else 'shift>n'])
+                               tags=['roll', 'roll.multi', 'shift<=n' if small else 'shift>n'])
                 sh = rng.randint(-min(s[x] for x in axes), min(s[x] for x in axes))
                 axs = [x - dim if rng.random() < 0.5 else x for x in axes]
                 yield Case('roll shape=%s shift=%d alist=%s' % (fmt(s), sh, fmt(axs)), H_A, oracle=ans(np.roll(a, sh, axis=tuple(axs))),
@@ -155,11 +155,6 @@ def roll_info(c):
     axes = [int(d['axis'])] if 'axis' in d else ints(d['alist'])
     shs = ints(d['slist']) if 'slist' in d else [int(d['shift'])] * len(axes)
     return s, shs, [x % len(s) for x in axes]
-
-
-def k_roll_large_shift(c):
-    r = roll_info(c)
-    return r is not None and any(abs(h) > r[0][x] for h, x in zip(r[1], r[2]))
 
 
 def k_roll_repeated_axis(c):
@@ -242,7 +237,6 @@ def k_concatenate_negative_axis(c):
 
 KNOWN_PREDICATES.update({
     'repeat_negative_axis': k_repeat_negative_axis,
-    'roll_large_shift': k_roll_large_shift,
     'roll_repeated_axis': k_roll_repeated_axis,
     'take_negative_index': k_take_negative_index,
     'take_negative_axis': k_take_negative_axis,
@@ -270,12 +264,12 @@ def gen_large(tier, rng):
         yield Case('repeat shape=%s rlist=%s axis=%d' % (fmt(s), fmt(rs), ax), H_A, oracle=ans(np.repeat(a, rs, axis=ax)), tags=['repeat'] + tg)
         yield Case('repeat shape=%s repeats=%d axis=None' % (fmt(s), r), H_A, oracle=ans(np.repeat(a, r)), tags=['repeat'] + tg)
         ax2 = rng.randrange(-dim, dim)
-        sh = rng.randint(-s[ax2], s[ax2])
+        sh = rng.randint(-3 * s[ax2], 3 * s[ax2])
         yield Case('roll shape=%s shift=%d axis=%d' % (fmt(s), sh, ax2), H_A, oracle=ans(np.roll(a, sh, axis=ax2)), tags=['roll'] + tg)
-        sh = rng.randint(-prod(s), prod(s))
+        sh = rng.randint(-3 * prod(s), 3 * prod(s))
         yield Case('roll shape=%s shift=%d axis=None' % (fmt(s), sh), H_A, oracle=ans(np.roll(a, sh)), tags=['roll'] + tg)
         axs = rng.sample(range(dim), rng.randint(1, dim))
-        shs = [rng.randint(-s[x], s[x]) for x in axs]
+        shs = [rng.randint(-3 * s[x], 3 * s[x]) for x in axs]
         axs = [x - dim if rng.random() < 0.5 else x for x in axs]
         yield Case('roll shape=%s slist=%s alist=%s' % (fmt(s), fmt(shs), fmt(axs)), H_A, oracle=ans(np.roll(a, shs, axis=tuple(axs))), tags=['roll'] + tg)
         w = [rng.randint(0, 2) for _ in range(2 * dim)]
